@@ -431,7 +431,7 @@ func (t Table) Lookup(req *http.Request, trace string, pick picker, match matche
 				redirect := *target
 				target = &redirect
 				target.BuildRedirectURL(req.URL) // build redirect url and cache in target
-				if target.RedirectURL.Scheme == req.Header.Get("X-Forwarded-Proto") &&
+				if target.RedirectURL.Scheme == requestScheme(req) &&
 					target.RedirectURL.Host == req.Host &&
 					target.RedirectURL.Path == req.URL.Path {
 					log.Print("[INFO] Skipping redirect with same scheme, host and path")
@@ -447,6 +447,19 @@ func (t Table) Lookup(req *http.Request, trace string, pick picker, match matche
 	}
 
 	return target
+}
+
+// requestScheme returns the scheme of the request as seen by the client:
+// the one an upstream proxy reports in the X-Forwarded-Proto header or
+// otherwise the one of the connection.
+func requestScheme(req *http.Request) string {
+	if proto := req.Header.Get("X-Forwarded-Proto"); proto != "" {
+		return proto
+	}
+	if req.TLS != nil {
+		return "https"
+	}
+	return "http"
 }
 
 func (t Table) LookupHost(host string, pick picker) *Target {
